@@ -35,12 +35,18 @@ End C05.
 Theorem C05_lex : forall a b, bytes_ok a -> bytes_ok b -> length a = length b -> lex_lt a b = (be_val a 0 <? be_val b 0).
 Proof. exact lex_lt_is_numeric. Qed.
 
-(* accepted control-block sizes are exactly 33 + 32m, m <= 128 (constants generated from script/interpreter.h) *)
+(* accepted control-block sizes are exactly 33 + 32m, m <= 128: the comparison operators are GENERATED from Instance::configure_tx_txin
+   (Gen/Sites.v), the constants from script/interpreter.h (Gen/Consts.v) *)
 Theorem C05_size : forall n,
-  (negb ((n <? Gen.Consts.TAPROOT_CONTROL_BASE_SIZE) || (Gen.Consts.TAPROOT_CONTROL_MAX_SIZE <? n)
+  (negb (cmp_eval Gen.Sites.site_control_min n Gen.Consts.TAPROOT_CONTROL_BASE_SIZE || cmp_eval Gen.Sites.site_control_max n Gen.Consts.TAPROOT_CONTROL_MAX_SIZE
          || negb ((n - Gen.Consts.TAPROOT_CONTROL_BASE_SIZE) mod Gen.Consts.TAPROOT_CONTROL_NODE_SIZE =? 0)) = true)
   <-> exists m, 0 <= m <= 128 /\ n = 33 + 32 * m.
-Proof. exact control_size_rule. Qed.
+Proof.
+  intros n.
+  change (cmp_eval Gen.Sites.site_control_min n Gen.Consts.TAPROOT_CONTROL_BASE_SIZE) with (n <? Gen.Consts.TAPROOT_CONTROL_BASE_SIZE).
+  change (cmp_eval Gen.Sites.site_control_max n Gen.Consts.TAPROOT_CONTROL_MAX_SIZE) with (Gen.Consts.TAPROOT_CONTROL_MAX_SIZE <? n).
+  apply control_size_rule.
+Qed.
 
 Print Assumptions C05_done_iff.
 Print Assumptions C05_states.
